@@ -191,6 +191,91 @@ def gen_big(rng):
                 placements=pl, kind="valid", style="big")
 
 
+def gen_entry(rng):
+    """The same allocator reached another way: a Machine whose per-chip resources were set by a history of
+    `machine[xy] = resources` assignments, the deprecated wrapper() (which appends the monitor reservation and
+    the SDRAM alignment to the caller's constraints) and place_and_route_wrapper() (which derives the machine
+    and the reservations of busy cores from a SystemInfo).  The case describes the EFFECTIVE problem -- what the
+    documentation of those entry points says the allocator is asked -- and `entry` tells the driver how to ask."""
+    how = rng.choice(["setitem", "wrapper", "pnr_wrapper"])
+    if how == "setitem":
+        c = gen_case(rng)
+        while c["kind"] != "valid":
+            c = gen_case(rng)
+        m = c["machine"]
+        live = [[x, y] for x in range(m["w"]) for y in range(m["h"]) if [x, y] not in m["dead"]]
+        final = {tuple(xy): rs for xy, rs in m["exc"]}
+        hist = []
+        for xy in live:
+            k = rng.random()
+            if k < 0.5:
+                continue
+            if k < 0.75 or tuple(xy) in final:      # earlier, different assignments; the last one wins
+                for _ in range(rng.randint(1, 2)):
+                    hist.append([xy, [[r, max(0, q + rng.choice([-3, -1, 2, 5]))] for r, q in m["res"]]])
+                if tuple(xy) not in final:          # ... then the chip is set back to what every chip has
+                    hist.append([xy, [list(rq) for rq in m["res"]]])
+        for xy, rs in m["exc"]:
+            hist.append([xy, rs])
+        rng.shuffle(hist)
+        # keep, per chip, the final assignment last
+        tail = [[list(xy), rs] for xy, rs in final.items()] + [h for h in hist if h[1] == [list(rq) for rq in m["res"]] and tuple(h[0]) not in final]
+        hist = [h for h in hist if h not in tail] + tail
+        c["entry"] = dict(how="setitem", history=hist)
+        c["style"] = "entry-setitem"
+        return c
+    if how == "wrapper":
+        c = gen_case(rng)
+        while c["kind"] != "valid" or len(c["machine"]["res"]) < 2:
+            c = gen_case(rng)
+        rc, rs = 0, 1
+        reserve_monitor, align_sdram = rng.random() < 0.7, rng.random() < 0.8
+        user = [k for k in c["constraints"] if not (k[0] == "align" and k[1] == rs and align_sdram)]
+        if align_sdram and len(c["machine"]["res"]) > 2 and rng.random() < 0.6:
+            user.append(["align", 2, rng.choice([2, 8])])           # the caller aligns ANOTHER resource
+        if align_sdram:                                             # sizes that are not multiples of 4
+            for v, rq in c["vres"]:
+                for q in rq:
+                    if q[0] == rs and rng.random() < 0.6:
+                        q[1] = rng.choice([1, 2, 3, 5, 6])
+        c["entry"] = dict(how="wrapper", reserve_monitor=reserve_monitor, align_sdram=align_sdram,
+                          core_resource=rc, sdram_resource=rs, user=user)
+        c["constraints"] = user + ([["reserve", rc, 0, 1, None]] if reserve_monitor else []) \
+            + ([["align", rs, 4]] if align_sdram else [])
+        c["style"] = "entry-wrapper"
+        return c
+    # place_and_route_wrapper: resources 0 (cores), 1 (sdram), 2 (sram) or a custom core resource 7
+    w, h = rng.choice([(1, 1), (2, 1), (2, 2), (3, 1)])
+    rc = rng.choice([0, 0, 7])
+    chips = [[x, y] for x in range(w) for y in range(h)]
+    dead = [c for c in chips[1:] if rng.random() < 0.15]
+    info, exc, cons = [], [], []
+    for xy in chips:
+        if xy in dead:
+            continue
+        n = rng.choice([18, 18, 17, 5])
+        states = ["run"] + [rng.choice(["idle", "idle", "idle", "run", "sync0"]) for _ in range(n - 1)]
+        if rng.random() < 0.3:
+            states[0] = "idle"
+        sd, sr = rng.choice([64, 100, 37]), rng.choice([16, 32])
+        info.append([xy, n, states, sd, sr])
+        exc.append([xy, [[rc, n], [1, sd], [2, sr]]])
+        cons += [["reserve", rc, i, i + 1, xy] for i, st in enumerate(states) if st != "idle"]
+    live = [i[0] for i in info]
+    user = []
+    if rng.random() < 0.4:
+        user.append(["reserve", 1, 0, rng.choice([4, 8]), None])
+    if rng.random() < 0.3:
+        user.append(["align", 1, 4])
+    vres, pl = [], []
+    for v in range(rng.randint(1, 7)):
+        vres.append([v + 1, [[rc, rng.choice([0, 1, 1, 2])], [1, rng.choice([0, 3, 8, 10])]] + ([[2, rng.choice([0, 4])]] if rng.random() < 0.5 else [])])
+        pl.append([v + 1, rng.choice(live)])
+    return dict(machine=dict(w=w, h=h, res=[[rc, 18], [1, 100], [2, 32]], exc=exc, dead=dead), vres=vres,
+                constraints=user + cons, placements=pl, kind="valid", style="entry-pnr_wrapper", no_model=True,
+                entry=dict(how="pnr_wrapper", core_resource=rc, info=info, user=user))
+
+
 # ------------------------------------------------------------------ Coq literals
 def coq_case(c):
     m = c["machine"]
@@ -328,6 +413,7 @@ def run(chk, args):
         cases = [gen_tight(chk.rng) if i % 4 == 1 else gen_brim(chk.rng) if i % 8 == 2
                  else gen_nullres(chk.rng) if i % 8 == 4
                  else gen_big(chk.rng) if i % 16 == 6
+                 else gen_entry(chk.rng) if i % 8 == 3
                  else gen_case(chk.rng, malformed=(i % 8 == 7)) for i in range(n)]
     for i, c in enumerate(cases):
         if i % 3 == 0 and "subclass" not in c:
@@ -357,6 +443,8 @@ def run(chk, args):
                       "Require Import Rig.Model.Base Rig.Model.Alloc.\n")
             vals = chk.coq_eval(header, [coq_case(c) for c in cases])
             for c, o, v in zip(cases, outs, vals):
+                if c.get("no_model"):       # the entry point chooses the representation of the reservations: oracle only
+                    continue
                 chk.traces_validated += 1
                 if canon_model(v) != canon_impl(o):
                     chk.disagree("allocate: model %r, implementation %r" % (canon_model(v), canon_impl(o)),
@@ -368,5 +456,6 @@ def run(chk, args):
             chk.oblige("correspondence:model-evaluates", False, str(e))
     chk.coverage["rule"] = ("random structured allocation problems (machines <= 3x2 with exceptions and dead chips, "
                             "<= 3 resources, <= 8 vertices, reservation styles ends/interleaved/adjacent/mixed, "
-                            "alignment in {1,2,3,4,8}; every 8th case malformed); non-trivial = >= 2 placed vertices, "
+                            "alignment in {1,2,3,4,8}; every 8th case malformed; every 8th case reaches the allocator through "
+                            "another entry point: Machine.__setitem__ histories, wrapper(), place_and_route_wrapper()); non-trivial = >= 2 placed vertices, "
                             ">= 1 reservation, outcome Ok or InsufficientResource; distinct by hash of the whole input")
